@@ -47,3 +47,104 @@ Proof.
 Qed.
 
 Print Assumptions C16_appends_only_without_root.
+
+(* ---------- T05: the faithfulness half (Proofs/T05Open.v, T05OpenDemo.v), for tapes written by filesystem-level
+   histories (hypotheses of C01_rows_rebuilt_are_live_rows_any_config; ANY configuration) *)
+From STFS Require Import Norm C01Fs2 C01Rows T05Shape T05Open.
+
+(* over any tape whose rebuild succeeds Initialize appends nothing, whatever index it is handed *)
+Theorem C16_rebuildable_tape : forall c s rootp p,
+  tp s <> [] -> rebuild c (tp s) = (p, Ok tt) ->
+  fs_initialize c s rootp =
+    match snd (get_root_path (db s)) with
+    | Some _ => (set_db s (fst (get_root_path (db s))), OOk)
+    | None => (set_db s (fst (get_root_path p)), match snd (get_root_path p) with Some _ => OOk | None => OOther 30 end)
+    end.
+Proof. exact T05_initialize_over_rebuildable_tape. Qed.
+
+(* (1) an ABSENT index *)
+Theorem C16_absent_index : forall c e r, 0 < c_rs c -> c_readonly c = false ->
+  forallb hb_ok ((CInitialize [slash], e) :: r) = true ->
+  forallb (fun ke => rename_ok (fst ke)) r = true ->
+  forallb (fun ke => fs_call (fst ke)) r = true ->
+  safe true r = true ->
+  forall rootp q1 q2 k,
+  let s := final c init_sys ((CInitialize [slash], e) :: r) in
+  let s0 := {| tp := tp s; db := p_empty; hbq := q1; encq := q2; clk := k |} in
+  exists p, rebuild c (tp s) = (p, Ok tt) /\ rows p = map norm_row (rows (db s)) /\
+    tp (fst (fs_initialize c s0 rootp)) = tp s /\
+    db (fst (fs_initialize c s0 rootp)) = fst (get_root_path p) /\
+    rows (db (fst (fs_initialize c s0 rootp))) = map norm_row (rows (db s)) /\
+    snd (fs_initialize c s0 rootp) = (if existsb live (rows (db s)) then OOk else OOther 30).
+Proof. exact T05_open_absent_index. Qed.
+
+(* (2) the CURRENT index reopened *)
+Theorem C16_current_index : forall c e r, 0 < c_rs c -> c_readonly c = false ->
+  forallb hb_ok ((CInitialize [slash], e) :: r) = true ->
+  forallb (fun ke => rename_ok (fst ke)) r = true ->
+  forallb (fun ke => fs_call (fst ke)) r = true ->
+  safe true r = true ->
+  forall rootp,
+  let s := final c init_sys ((CInitialize [slash], e) :: r) in
+  let s0 := set_db s (p_open (rows (db s))) in
+  tp (fst (fs_initialize c s0 rootp)) = tp s /\
+  (if existsb live (rows (db s))
+   then fs_initialize c s0 rootp = (s0, OOk)
+   else rows (db (fst (fs_initialize c s0 rootp))) = map norm_row (rows (db s)) /\ snd (fs_initialize c s0 rootp) = OOther 30).
+Proof. exact T05_open_current_index. Qed.
+
+Theorem C16_current_index_root_kept : forall c e r, 0 < c_rs c -> c_readonly c = false ->
+  forallb hb_ok ((CInitialize [slash], e) :: r) = true ->
+  forallb (fun ke => fs_call (fst ke)) r = true ->
+  forallb (fun ke => call_ok (fst ke)) r = true ->
+  let s := final c init_sys ((CInitialize [slash], e) :: r) in
+  p_open (rows (db s)) = db s /\
+  forall rootp, fs_initialize c (set_db s (p_open (rows (db s)))) rootp = (s, OOk).
+Proof. exact T05_open_current_index_kept. Qed.
+
+(* (1') an index that is a rebuild of the same tape *)
+Theorem C16_rebuilt_index : forall c e r, 0 < c_rs c -> c_readonly c = false ->
+  forallb hb_ok ((CInitialize [slash], e) :: r) = true ->
+  forallb (fun ke => rename_ok (fst ke)) r = true ->
+  forallb (fun ke => fs_call (fst ke)) r = true ->
+  safe true r = true ->
+  let s := final c init_sys ((CInitialize [slash], e) :: r) in
+  forall rootp, let s0 := set_db s (fst (rebuild c (tp s))) in
+  tp (fst (fs_initialize c s0 rootp)) = tp s /\
+  rows (db (fst (fs_initialize c s0 rootp))) = map norm_row (rows (db s)).
+Proof. exact T05_open_rebuilt_index. Qed.
+
+(* (3) continuation: from the current index a later history is the writer's longer history ... *)
+Theorem C16_continue_current : forall c e r, 0 < c_rs c -> c_readonly c = false ->
+  forallb hb_ok ((CInitialize [slash], e) :: r) = true ->
+  forallb (fun ke => call_ok (fst ke)) r = true ->
+  forallb (fun ke => fs_call (fst ke)) r = true ->
+  let s := final c init_sys ((CInitialize [slash], e) :: r) in
+  forall r2, final c (set_db s (p_open (rows (db s)))) r2 = final c init_sys (((CInitialize [slash], e) :: r) ++ r2).
+Proof. exact T05_continue_current. Qed.
+
+(* ... from a rebuilt index the state-independent theorems apply (shape, append-only, positions) *)
+Theorem C16_continue_rebuilt : forall c t q1 q2 k rootp h, 0 < c_rs c -> archives t ->
+  let s0 := {| tp := t; db := p_empty; hbq := q1; encq := q2; clk := k |} in
+  let s' := final c (fst (fs_initialize c s0 rootp)) h in
+  archives (tp s') /\ (exists l, Forall nonempty l /\ tp s' = t ++ archs l) /\
+  C04Inv.pos_wf c s' /\ C04Inv.pos_ord c s'.
+Proof. exact T05_continue_rebuilt. Qed.
+
+Print Assumptions C16_absent_index.
+Print Assumptions C16_current_index.
+Print Assumptions C16_current_index_root_kept.
+Print Assumptions C16_continue_current.
+Print Assumptions C16_continue_rebuilt.
+
+(* what the instance reopened on the current index SHOWS: the same tree (root never removed) *)
+Theorem C16_reopened_shows_the_same_tree : forall c e r, 0 < c_rs c -> c_readonly c = false ->
+  forallb hb_ok ((CInitialize [slash], e) :: r) = true ->
+  forallb (fun ke => fs_call (fst ke)) r = true ->
+  forallb (fun ke => call_ok (fst ke)) r = true ->
+  let s := final c init_sys ((CInitialize [slash], e) :: r) in
+  forall rootp q1 q2 k,
+  let s0 := {| tp := tp s; db := p_open (rows (db s)); hbq := q1; encq := q2; clk := k |} in
+  fst (fs_initialize c s0 rootp) = s0 /\ snd (fs_initialize c s0 rootp) = OOk /\ view c s0 = view c s.
+Proof. exact T05_reopened_shows_the_same_tree. Qed.
+Print Assumptions C16_reopened_shows_the_same_tree.
